@@ -5,7 +5,12 @@ Model   : lean/JRV/Model/Server.lean (isNotification, singleDispatch, effect log
 Tie     : extracted notification-id tuple + correspondence of (number of response objects, effect log: calls made
           inline in order with the arguments the callee saw, tasks handed to the pool) between model and real code.
 Monitor : notifications never answered; per-callable invocation counters == 1 (0 when the method is unknown or
-          the arguments do not bind), read after the real ThreadPool has been drained.
+          the arguments do not bind), read after the real ThreadPool has been drained.  Whether a body holds a well-formed
+          notification is not for the parser under test to say: when the library answers a parse failure, the body is read
+          by the harness (RFC 8259 recogniser + CPython's json.loads, servercases_ws.reread) and judged all the same.
+Text    : the requests of the run wrapped in insignificant white space (harness/servercases_ws.py, ws/…): same monitor +
+          "handled exactly as the bare request"; theorem C04_ws_wrapped_body (lean/JRV/Lemmas/JsonTextWs.lean), facts
+          stdlibLoadsPlain / loadsParsesWholeBody, text-layer correspondence (component jsontext).
 Stage 2 : the pooled path under the deterministic scheduler (harness/poolpaths.py): the real dispatcher with a real
           ThreadPool(max 1..3, min 0..max) as notification pool, 1-2 managed request threads calling `_marshaled_dispatch`
           (notifications alone and in batches, all id shapes, methods that return / raise / do not exist / get bad
@@ -35,6 +40,7 @@ REQUIRED_THEOREMS = [
     "C04_once_pooled",
     "C04_once_pooled_custom",
     "C04_pooled_eventually_runs",
+    "C04_ws_wrapped_body",
     "C09_at_most_once",
     "C09_exec_count_phase",
     "C09_eventually_begins",
@@ -44,18 +50,26 @@ REQUIRED_THEOREMS = [
     "C04_gen_poolGrowthRule",
     "C04_gen_poolPendingStores",
     "C04_gen_poolUnlockedAccesses",
+    "C04_gen_stdlibLoadsPlain",
+    "C04_gen_loadsParsesWholeBody",
 ]
 
 MONITORS = [("notification", sc.monitor_c04)]
 
 RULE = ("notification shapes (2.0 without id, id null, id '') alone and at sampled batch positions, methods that return, "
         "raise, do not exist, get bad arguments; default, instance and custom dispatchers; no pool / real ThreadPool behind "
-        "a recording proxy (drained before the counters are read) / full pool; distinct_nontrivial as for C02")
+        "a recording proxy (drained before the counters are read) / full pool; every request of the run that is a JSON text — the three "
+        "notification shapes x the four method outcomes and two batches systematically, a seeded share of the rest (five times as many, at most all, in the "
+        "thorough tier) — again wrapped in insignificant white space (SP, TAB, LF, CR, CRLF, mixed runs: before, after, both sides, between the "
+        "tokens, everywhere; class:ws/<where>/<characters>), over _marshaled_dispatch and do_POST, judged by the same monitor (what the "
+        "body is, is read by the harness itself when the library answers a parse failure) and compared with the bare request (same "
+        "reply, same invocations); every body also judged by the Lean recogniser JRV.Model.JsonText against the real jloads/loads; "
+        "distinct_nontrivial as for C02")
 
 
 def run(ctx):
     em = {"single": 0.8, "batch": 2.0, "damaged": 0.1, "descriptor": 0.4, "noise": 0.2, "pool": 3.0, "randreg": 0.6, "post": 0.02,
-          "exhaustive_batch": True}
+          "exhaustive_batch": True, "ws": 0.2, "ws_focus": "notif", "textlayer": True}
     sc.standard_run(ctx, "C04", MONITORS, sc.proj_notif, em, RULE)
     pooled_stage(ctx)
 
